@@ -67,6 +67,21 @@ def judgeFrame (blobs : Std.HashMap Nat ByteArray) (r : Rec) : Verdict := Id.run
   let dict := dictOf blobs dictSize
   let mut v : Verdict := {}
   if frame.size == 0 then return { tags := ["frame.none"] }
+  if kind == 3 then
+    -- a header alone (what LZ4F_compressBegin wrote): it must parse, end exactly at its last byte and carry the requested fields
+    let csize := rdLE (r.bytes 5) 0 8      -- unsigned 64-bit
+    match parseHeader (frame ++ ByteArray.mk #[0, 0, 0, 0]) 0 with
+    | .error e => return { fails := [("frame_rejected_by_spec_parser", s!"header alone: {repr e} (content size requested {csize})")] }
+    | .ok h =>
+      let bsidDefault := if bsidReq == 0 then 4 else bsidReq
+      if h.size != frame.size then v := { v with fails := ("header_size", s!"header is {frame.size} bytes, its fields say {h.size}") :: v.fails }
+      if h.bsid != bsidDefault then v := { v with fails := ("header_block_size_id", s!"got {h.bsid} want {bsidDefault}") :: v.fails }
+      if h.blockIndep != (blockMode == 1) then v := { v with fails := ("header_block_mode", "") :: v.fails }
+      if h.contentChecksum != (ccFlag == 1) then v := { v with fails := ("header_content_checksum_flag", "") :: v.fails }
+      if h.blockChecksum != (bcFlag == 1) then v := { v with fails := ("header_block_checksum_flag", "") :: v.fails }
+      if h.contentSize != (if csize == 0 then none else some csize) then v := { v with fails := ("header_content_size", s!"got {h.contentSize} want {csize}") :: v.fails }
+      if h.dictId != (if dictID == 0 then none else some dictID) then v := { v with fails := ("header_dict_id", s!"got {h.dictId} want {dictID}") :: v.fails }
+      return { v with tags := ["header.alone", if csize ≥ 4294967296 then "csize.huge" else "csize.small"] }
   match parseFrame frame 0 dict with
   | .error e => v := { v with fails := ("frame_rejected_by_spec_parser", s!"{repr e}") :: v.fails }
   | .ok f =>
